@@ -3,5 +3,6 @@ CONSTANTS
   MaxLen = 3
   FibMax = 15
   CountBig = 50000
-INVARIANTS KernelEq FirstIsLeast SwapLaw NonOverlapPerm RecLaw RecSanity Emit
+  Big = FALSE
+INVARIANTS KernelEq FirstIsLeast SwapLaw NonOverlapPerm RecLaw RecSanity InScope Emit
 CHECK_DEADLOCK FALSE
